@@ -392,3 +392,57 @@ func VXStdCase(a string, flip bool) {
 	}
 	vv.Assert(xor(strings.ToLower(a) == lo && strings.ToUpper(a) == up, flip), "selfcheck: ToLower/ToUpper on non-ASCII input differ from the rune-wise model")
 }
+
+// strconv.Quote / %q on ASCII input (engine: branch per escape class on symbolic bytes) against a
+// table written from the Go specification of interpreted string literals.
+func quoteModel(a string) string {
+	const hexd = "0123456789abcdef"
+	q := []byte{'"'}
+	for i := 0; i < len(a); i++ {
+		c := a[i]
+		switch {
+		case c == '"':
+			q = append(q, '\\', '"')
+		case c == '\\':
+			q = append(q, '\\', '\\')
+		case c == 7:
+			q = append(q, '\\', 'a')
+		case c == 8:
+			q = append(q, '\\', 'b')
+		case c == 12:
+			q = append(q, '\\', 'f')
+		case c == 10:
+			q = append(q, '\\', 'n')
+		case c == 13:
+			q = append(q, '\\', 'r')
+		case c == 9:
+			q = append(q, '\\', 't')
+		case c == 11:
+			q = append(q, '\\', 'v')
+		case c < 0x20 || c == 0x7f:
+			q = append(q, '\\', 'x', hexd[c>>4], hexd[c&15])
+		default:
+			q = append(q, c)
+		}
+	}
+	q = append(q, '"')
+	return string(q)
+}
+
+func quoteCode(s string) int {
+	if strconv.Quote(s) == quoteModel(s) && fmt.Sprintf("%q", s) == quoteModel(s) {
+		return 1
+	}
+	return 0
+}
+
+func VXSelfQuoteReport(s string) { vv.Assert(false, strconv.Itoa(quoteCode(s))) }
+
+func VXSelfQuote(s string, want int) {
+	vv.Assert(quoteCode(s) == want, "selfcheck: engine and native execution disagree (strconv.Quote)")
+}
+
+func VXStdQuote(a string, flip bool) {
+	m := quoteModel(a)
+	vv.Assert(xor(strconv.Quote(a) == m && fmt.Sprintf("%q", a) == m, flip), "selfcheck: strconv.Quote / %q on ASCII input differ from the escape table")
+}
